@@ -215,6 +215,8 @@ def check(case, rec=None):
     ref = O.geo_forward(sc, fc, om, p, t)
     c = Cmp(p, ref)
     ome = om * p["omegasign"]
+    if om.dtype.kind == "i" and p["omegasign"] == 1.0:
+        ome = om              # whole-degree angles handed on as integers (what a direct caller with such a column does)
     pk = {k: v for k, v in p.items()}
     # ---- (0) the documented Python formulas themselves
     ok, xyz_py = guard(transform.compute_xyz_lab, [sc, fc], **pk)
